@@ -332,6 +332,10 @@ var concreteQueries = []string{
 	`sum by (a) (m1) * 2`,
 	`-sum by (b) (m2)`,
 	`sum by (a) (m1{a="x"}) + on () group_right () sum by (a) (m2)`,
+	`count by (a) (sum by (b) (max by (a, b) (m1)))`,
+	`count by (b) (sum by (a) (max by (a, b) (m1)))`,
+	`sum by (a) (count by (a, b) (max without (b) (m1)))`,
+	`max by (a) (sum without (a) (count by (a, b) (m1)))`,
 }
 
 func randWorld(r interface{ Intn(int) int }, names []string, maxSeries int, withLe bool) []map[string]any {
